@@ -71,3 +71,19 @@ W unsigned w_objeq_low(int32_t x, int32_t y, unsigned ynull, int32_t z, int32_t 
   unsigned r = (a == b) ? 1u : 0u; r |= (b == a) ? 2u : 0u; r |= (a != b) ? 4u : 0u;
   return r;
 }
+// ---- object history at the ObjectData level (C04/C06): add k1:v1, add k2:v2, remove K, add k3:v3; keys are 1 symbolic byte
+struct OHist { unsigned size, n, calls_mid, calls_end, found1, found2, found3; unsigned char keys[4]; int32_t vals[4]; };
+W void w_obj_hist(const char* k1, const char* k2, const char* k3, int32_t v1, int32_t v2, int32_t v3, unsigned removeWhich, OHist* h) {
+  arena.reset(); ResourceManager rm(&arena);
+  VariantData v; ObjectData& ob = v.toObject(); VariantData* m;
+  StringNode* s1 = rm.saveString(adaptString(k1, 1)); m = ob.addMember(s1, &rm); if (m) m->setInteger(v1, &rm);
+  StringNode* s2 = rm.saveString(adaptString(k2, 1)); m = ob.addMember(s2, &rm); if (m) m->setInteger(v2, &rm);
+  ob.removeMember(adaptString(removeWhich == 1 ? k1 : k2, 1), &rm);
+  h->calls_mid = arena.calls;
+  StringNode* s3 = rm.saveString(adaptString(k3, 1)); m = ob.addMember(s3, &rm); if (m) m->setInteger(v3, &rm);
+  h->calls_end = arena.calls;
+  h->size = unsigned(ob.size(&rm)); h->n = 0;
+  JsonObjectConst o(&ob, &rm);
+  for (JsonPairConst p : o) { if (h->n < 4) { h->keys[h->n] = (unsigned char)p.key().c_str()[0]; h->vals[h->n] = p.value().as<int32_t>(); } h->n++; }
+  h->found1 = ob.getMember(adaptString(k1, 1), &rm) != nullptr; h->found2 = ob.getMember(adaptString(k2, 1), &rm) != nullptr; h->found3 = ob.getMember(adaptString(k3, 1), &rm) != nullptr;
+}
